@@ -22,7 +22,13 @@ P = {'id': 'C18',
               'fiber_pool_bounded',
               'reduce_chunks_partition',
               'parallel_reduce_is_fold',
-              'parallel_reduce_error_surfaces'],
+              'parallel_reduce_error_surfaces',
+              'pipeline_error_surfaces',
+              'pipeline_order_preserved',
+              'process_batch_is_map',
+              'two_stage_composes',
+              'batch_collector_partition',
+              'collector_timeout_not_early'],
  'trusted': ['modelled (M+S): src/concurrency/work_stealing.rs WorkStealingQueue::{push_local, pop_local, steal, balance, len} and '
              'WorkStealingExecutor::{submit, find_task, one worker_loop iteration incl. the periodic balance, total_queued, is_idle} with every queue '
              'operation one atomic step; the index-tagged result collection of FiberPool::{parallel_map, spawn_batch, parallel_reduce}, '
